@@ -143,6 +143,68 @@ Proof.
     exists p'. auto.
 Qed.
 
+(* the position machine is total: every history of position operations returns a position, which
+   is null or canonical on an existing tree (no out-of-bounds access to the index arrays or the
+   breakpoints, no fuel exhaustion in the scans, no assertion failure) *)
+Definition PosOk (q : tseq) (p : npos) : Prop := n_index p = -1 \/ exists i, PosAt q p i.
+
+Lemma pos_op_total L ns es Ins Rem q :
+  valid_edgesb L ns es = true -> index_sorted es Ins Rem -> mk_tseq L ns es Ins Rem = Ok q ->
+  forall p op, PosOk q p -> exists p', pos_op q p op = Ok p' /\ PosOk q p'.
+Proof.
+  intros HVb HI HQ p [kind a] OK. unfold pos_op.
+  pose proof (ntrees_pos L ns es Ins Rem q HVb HI HQ) as NT.
+  destruct (Z.eqb_spec kind 0) as [K0|K0].
+  { destruct OK as [Ix|[i PA]].
+    - destruct (next_pos_null L ns es Ins Rem q HVb HI HQ p Ix) as (p' & E & PA' & _).
+      rewrite E. cbn [bind]. exists p'. split; [reflexivity|]. right. eauto.
+    - pose proof PA as (R & _).
+      destruct (Z.eq_dec (i + 1) (q_ntrees q)) as [End|NE].
+      + assert (PA' : PosAt q p (q_ntrees q - 1)) by (replace (q_ntrees q - 1) with i by lia; exact PA).
+        destruct (next_pos_end L ns es Ins Rem q HI HQ p PA') as (p' & E & Ix' & _).
+        rewrite E. cbn [bind]. exists p'. split; [reflexivity|]. left. exact Ix'.
+      + destruct (next_pos L ns es Ins Rem q HVb HI HQ p i PA ltac:(lia)) as (p' & E & PA' & _).
+        rewrite E. cbn [bind]. exists p'. split; [reflexivity|]. right. eauto. }
+  destruct (Z.eqb_spec kind 1) as [K1|K1].
+  { destruct OK as [Ix|[i PA]].
+    - destruct (prev_pos_null L ns es Ins Rem q HVb HI HQ p Ix) as (p' & E & PA' & _).
+      rewrite E. cbn [bind]. exists p'. split; [reflexivity|]. right. eauto.
+    - pose proof PA as (R & _).
+      destruct (Z.eq_dec i 0) as [End|NE].
+      + assert (PA' : PosAt q p 0) by (rewrite <- End; exact PA).
+        destruct (prev_pos_end L ns es Ins Rem q HVb HI HQ p PA') as (p' & E & Ix' & _).
+        rewrite E. cbn [bind]. exists p'. split; [reflexivity|]. left. exact Ix'.
+      + destruct (prev_pos L ns es Ins Rem q HVb HI HQ p i PA ltac:(lia)) as (p' & E & PA' & _).
+        rewrite E. cbn [bind]. exists p'. split; [reflexivity|]. right. eauto. }
+  destruct (Z.eqb_spec kind 2) as [K2|K2].
+  { exists (set_null p). split; [reflexivity|]. left. reflexivity. }
+  assert (SK : (n_index p =? -1) && (0 <=? a) && (a <? q_ntrees q) = true ->
+               n_index p = -1 /\ 0 <= a < q_ntrees q).
+  { intros B. apply andb_true_iff in B as [B B3]. apply andb_true_iff in B as [B1 B2].
+    apply Z.eqb_eq in B1. apply Z.leb_le in B2. apply Z.ltb_lt in B3. lia. }
+  destruct (Z.eqb_spec kind 3) as [K3|K3].
+  { destruct ((n_index p =? -1) && (0 <=? a) && (a <? q_ntrees q)) eqn:B; [|exists p; auto].
+    destruct (SK eq_refl) as [Ix Ha].
+    destruct (seek_bookmarks_lemma L ns es Ins Rem q HVb HI HQ p a Ix Ha) as [(p' & E & PA) _].
+    exists p'. split; [exact E|]. right. eauto. }
+  destruct (Z.eqb_spec kind 4) as [K4|K4]; [|exists p; auto].
+  destruct ((n_index p =? -1) && (0 <=? a) && (a <? q_ntrees q)) eqn:B; [|exists p; auto].
+  destruct (SK eq_refl) as [Ix Ha].
+  destruct (seek_bookmarks_lemma L ns es Ins Rem q HVb HI HQ p a Ix Ha) as [_ (p' & E & PA)].
+  exists p'. split; [exact E|]. right. eauto.
+Qed.
+
+Lemma pos_run_total_lemma L ns es Ins Rem q :
+  valid_edgesb L ns es = true -> index_sorted es Ins Rem -> mk_tseq L ns es Ins Rem = Ok q ->
+  forall ops p, n_index p = -1 \/ (exists i, PosAt q p i) ->
+  exists p', pos_run q p ops = Ok p' /\ (n_index p' = -1 \/ exists i, PosAt q p' i).
+Proof.
+  intros HVb HI HQ. induction ops as [|op r IH]; intros p OK; simpl.
+  - exists p. auto.
+  - destruct (pos_op_total L ns es Ins Rem q HVb HI HQ p op OK) as (p1 & E & OK1).
+    rewrite E. cbn [bind]. apply IH. exact OK1.
+Qed.
+
 (* ---- non-vacuity: a sequence with a long edge-less tail; seek into the tail from a fresh
    tree (forward, x <= L/2), then prev(), next(), seek back, last, prev ---- *)
 Definition ex_nav_ns := [mkNode true 0; mkNode true 0; mkNode false 1].
@@ -165,4 +227,10 @@ Proof. vm_compute. reflexivity. Qed.
 
 Example ex_nav_reject :
   ex_nav_run [(3, 0); (5, 4); (6, -3); (1, 0)] = Ok [[0; 0; 1; 2]; [2; 2; -1; -1]].
+Proof. vm_compute. reflexivity. Qed.
+
+Example ex_pos_run :
+  (do q <- load 4 ex_nav_ns ex_nav_es;
+   do p <- pos_run q npos0 [(3, 1); (1, 0); (0, 0); (2, 0); (4, 0); (0, 0)];
+   Ok [n_index p; n_left p; n_right p; b_stop (n_in p); b_stop (n_out p)]) = Ok [1; 1; 4; 2; 2].
 Proof. vm_compute. reflexivity. Qed.
